@@ -34,46 +34,42 @@ Fixpoint parse_immediate_f (fuel : nat) (imm : list string) (l : line) : fres ex
       | [] => raise_asm l                                     (* 'empty immediate value' *)
       | h :: _ =>
           let head := lower h in
-          if String.eqb head "%position" then
-            match nth_tok 1 imm with
-            | None => raise_raw OtherExn                      (* imm[1]: IndexError *)
-            | Some t1 =>
-                if String.eqb t1 "(" then
-                  (* _, _, reference, *imm, _ = imm *)
-                  match imm with
-                  | _ :: _ :: ref :: x :: rest => e <! arith (removelast (x :: rest)) ;; FOk (EPos ref e)
-                  | _ => raise_raw ValueError
-                  end
-                else
-                  match imm with
-                  | _ :: ref :: rest => e <! arith rest ;; FOk (EPos ref e)
-                  | _ => raise_raw ValueError
-                  end
-            end
+          let is_hilo := String.eqb head "%hi" || String.eqb head "%lo" in
+          let is_mod := String.eqb head "%position" || String.eqb head "%offset" || is_hilo in
+          (* parens = len(imm) > 1 and imm[1] == '(' ; the token-count check in front of the unpacking *)
+          let parens := tok_is (nth_tok 1 imm) "(" in
+          let shortest := ((if is_hilo then 1 else 2) + (if parens then 2 else 0))%nat in
+          let n := List.length imm in
+          if is_mod && (Nat.ltb n shortest || (String.eqb head "%offset" && negb (Nat.eqb n shortest))) then
+            raise_asm l                                       (* 'malformed %... expression' *)
+          else if String.eqb head "%position" then
+            if parens then
+              (* _, _, reference, *imm, _ = imm *)
+              match imm with
+              | _ :: _ :: ref :: x :: rest => e <! arith (removelast (x :: rest)) ;; FOk (EPos ref e)
+              | _ => raise_raw ValueError
+              end
+            else
+              match imm with
+              | _ :: ref :: rest => e <! arith rest ;; FOk (EPos ref e)
+              | _ => raise_raw ValueError
+              end
           else if String.eqb head "%offset" then
-            match nth_tok 1 imm with
-            | None => raise_raw OtherExn
-            | Some t1 =>
-                if String.eqb t1 "(" then
-                  match imm with [_; _; ref; _] => FOk (EOff ref) | _ => raise_raw ValueError end
-                else
-                  match imm with [_; ref] => FOk (EOff ref) | _ => raise_raw ValueError end
-            end
-          else if String.eqb head "%hi" || String.eqb head "%lo" then
-            match nth_tok 1 imm with
-            | None => raise_raw OtherExn
-            | Some t1 =>
-                let inner :=
-                  if String.eqb t1 "(" then
-                    match imm with
-                    | _ :: _ :: x :: rest => FOk (removelast (x :: rest))
-                    | _ => raise_raw ValueError
-                    end
-                  else FOk (tl imm) in
-                i <! inner ;;
-                e <! parse_immediate_f f i l ;;
-                FOk (if String.eqb head "%hi" then EHi e else ELo e)
-            end
+            if parens then
+              match imm with [_; _; ref; _] => FOk (EOff ref) | _ => raise_raw ValueError end
+            else
+              match imm with [_; ref] => FOk (EOff ref) | _ => raise_raw ValueError end
+          else if is_hilo then
+            let inner :=
+              if parens then
+                match imm with
+                | _ :: _ :: x :: rest => FOk (removelast (x :: rest))
+                | _ => raise_raw ValueError
+                end
+              else FOk (tl imm) in
+            i <! inner ;;
+            e <! parse_immediate_f f i l ;;
+            FOk (if String.eqb head "%hi" then EHi e else ELo e)
           else arith imm
       end
   end.
@@ -113,19 +109,13 @@ Definition pseudo (l : line) (name : string) (args : list string) : fres item :=
   else FOk (IPseudo name args (PErr (PRaw OtherExn))).      (* pimm is only read for li *)
 
 (* name, a, b, *imm = tokens ; or the base+offset form  name, a, offset, (, b, ) *)
-Definition base_offset (tokens : list string) (check_tab : bool) (head : string) : fres (string * string * list string) :=
+Definition base_offset (l : line) (tokens : list string) (check_tab : bool) (head : string) : fres (string * string * list string) :=
   let alt := if check_tab then mem_str head BASE_OFFSET_INSTRUCTIONS_final else true in
-  if alt then
-    match nth_tok 3 tokens with
-    | None => raise_raw OtherExn                              (* tokens[3]: IndexError *)
-    | Some t3 =>
-        if String.eqb t3 "(" then
-          match tokens with
-          | [_; a; off; _; b; _] => FOk (a, b, [off])
-          | _ => raise_raw ValueError
-          end
-        else
-          match tokens with _ :: a :: b :: imm => FOk (a, b, imm) | _ => raise_raw ValueError end
+  (* len(tokens) > 3 and tokens[3] == '(' ; then exactly six tokens or 'base offset form must be "offset(reg)"' *)
+  if alt && tok_is (nth_tok 3 tokens) "(" then
+    match tokens with
+    | [_; a; off; _; b; _] => FOk (a, b, [off])
+    | _ => raise_asm l
     end
   else
     match tokens with _ :: a :: b :: imm => FOk (a, b, imm) | _ => raise_raw ValueError end.
@@ -156,7 +146,7 @@ Definition parse_item (l : line) (tokens : list string) : fres item :=
         e <! parse_immediate args l ;; FOk (IShort t0 (FExpr e))     (* the name is NOT lower-cased here *)
       else if String.eqb head "align" then
         match tokens with
-        | [_; a] => match int_of a with Some z => FOk (IAlign z) | None => raise_asm l end
+        | [_; a] => match int_of a with Some z => if Z.ltb z 1 then raise_asm l else FOk (IAlign z) | None => raise_asm l end
         | _ => raise_raw ValueError
         end
       else if in_tab head R_TYPE_INSTRUCTIONS_final then
@@ -171,23 +161,19 @@ Definition parse_item (l : line) (tokens : list string) : fres item :=
       else if in_tab head I_TYPE_INSTRUCTIONS_final then
         if Nat.eqb n 2 then pseudo l head args
         else
-          p <! base_offset tokens true head ;;
+          p <! base_offset l tokens true head ;;
           let '(rd, rs1, imm) := p in
           e <! parse_immediate imm l ;;
           instr "ITypeInstruction" head [("rd", R rd); ("rs1", R rs1); imm_field e; ("is_auipc_jump", FBool false)] false
       else if in_tab head IE_TYPE_INSTRUCTIONS_final then
         match tokens with [_] => instr "IETypeInstruction" head [] false | _ => raise_raw ValueError end
       else if in_tab head S_TYPE_INSTRUCTIONS_final then
-        match nth_tok 3 tokens with
-        | None => raise_raw OtherExn
-        | Some t3 =>
-            p <! (if String.eqb t3 "(" then
-                    match tokens with [_; rs2; off; _; rs1; _] => FOk (rs1, rs2, [off]) | _ => raise_raw ValueError end
-                  else match tokens with _ :: rs1 :: rs2 :: imm => FOk (rs1, rs2, imm) | _ => raise_raw ValueError end) ;;
-            let '(rs1, rs2, imm) := p in
-            e <! parse_immediate imm l ;;
-            instr "STypeInstruction" head [("rs1", R rs1); ("rs2", R rs2); imm_field e] false
-        end
+        p <! (if tok_is (nth_tok 3 tokens) "(" then
+                match tokens with [_; rs2; off; _; rs1; _] => FOk (rs1, rs2, [off]) | _ => raise_asm l end
+              else match tokens with _ :: rs1 :: rs2 :: imm => FOk (rs1, rs2, imm) | _ => raise_raw ValueError end) ;;
+        let '(rs1, rs2, imm) := p in
+        e <! parse_immediate imm l ;;
+        instr "STypeInstruction" head [("rs1", R rs1); ("rs2", R rs2); imm_field e] false
       else if in_tab head B_TYPE_INSTRUCTIONS_final then
         match tokens with
         | [_; rs1; rs2; reference] =>
@@ -262,21 +248,17 @@ Definition parse_item (l : line) (tokens : list string) : fres item :=
         | _ => raise_raw ValueError
         end
       else if in_tab head CL_TYPE_INSTRUCTIONS_final then
-        p <! base_offset tokens false head ;;
+        p <! base_offset l tokens false head ;;
         let '(rd, rs1, imm) := p in
         e <! parse_immediate imm l ;;
         instr "CLTypeInstruction" head [("rd", R rd); ("rs1", R rs1); imm_field e] true
       else if in_tab head CS_TYPE_INSTRUCTIONS_final then
-        match nth_tok 3 tokens with
-        | None => raise_raw OtherExn
-        | Some t3 =>
-            p <! (if String.eqb t3 "(" then
-                    match tokens with [_; rs2; off; _; rs1; _] => FOk (rs1, rs2, [off]) | _ => raise_raw ValueError end
-                  else match tokens with _ :: rs1 :: rs2 :: imm => FOk (rs1, rs2, imm) | _ => raise_raw ValueError end) ;;
-            let '(rs1, rs2, imm) := p in
-            e <! parse_immediate imm l ;;
-            instr "CSTypeInstruction" head [("rs1", R rs1); ("rs2", R rs2); imm_field e] true
-        end
+        p <! (if tok_is (nth_tok 3 tokens) "(" then
+                match tokens with [_; rs2; off; _; rs1; _] => FOk (rs1, rs2, [off]) | _ => raise_asm l end
+              else match tokens with _ :: rs1 :: rs2 :: imm => FOk (rs1, rs2, imm) | _ => raise_raw ValueError end) ;;
+        let '(rs1, rs2, imm) := p in
+        e <! parse_immediate imm l ;;
+        instr "CSTypeInstruction" head [("rs1", R rs1); ("rs2", R rs2); imm_field e] true
       else if in_tab head CA_TYPE_INSTRUCTIONS_final then
         match tokens with
         | [_; a; b] => instr "CATypeInstruction" head [("rd_rs1", R a); ("rs2", R b)] true
